@@ -25,6 +25,8 @@ theorem pubs_step (s : St) (e : Ev) :
   | gcList l => left; rfl
   | gcRelease => left; rfl
   | gcDelete p => left; rfl
+  | mLock r => left; rfl
+  | mUnlock r => left; rfl
 
 theorem run_append (s : St) (t u : List Ev) : run s (t ++ u) = run (run s t) u := by
   simp [run, List.foldl_append]
@@ -92,6 +94,8 @@ theorem warmed_step (s : St) (e : Ev) (x : Rid) (hw : (s.rs x).warmed = true)
   | gcList l => exact hw
   | gcRelease => exact hw
   | gcDelete p => exact hw
+  | mLock r => exact hw
+  | mUnlock r => exact hw
 
 def WarmInv (ρ : Nat) (s : St) : Prop :=
   ∀ r j, (r, j) ∈ s.pubs → r.1 = ρ → (s.rs r).warmed = true
